@@ -103,7 +103,8 @@ def encoder_table(prog):
         if len(d) != 1:
             raise AnchorError("byte_to_ascii: byte 0x%02x has %d result definitions on its path" % (b, len(d)))
         bb, si, kind, payload = d[0]
-        tree = o._def(d[0], 0, ())
+        # origin of the result along this byte's own path (a shared `x.to_string()` behind a match over &'static str has no phi here)
+        tree = Origins(f, only_blocks=path)._def(d[0], 0, ())
         n = tree
         if n.kind == "call" and method_name(n.a) == "ToString::to_string":
             src = peel(n.kids[0])
@@ -114,6 +115,11 @@ def encoder_table(prog):
             while inner.kind in ("ref", "deref"):
                 inner = inner.kids[0]
             if inner.kind == "cast" and peel(inner).kind == "arg":
+                table[b] = ("id",)
+                continue
+            # `char::from(byte)` is the same u8 -> char widening as `byte as char`
+            if inner.kind == "call" and method_name(inner.a) in ("From::from", "Into::into", "char::from") and inner.kids and peel(inner.kids[0]).kind == "arg" \
+                    and "char" in inner.a:
                 table[b] = ("id",)
                 continue
             raise AnchorError("byte_to_ascii: unrecognised to_string source for 0x%02x: %s" % (b, n.show()))
